@@ -24,7 +24,7 @@ from . import build
 from .pool import Pool
 
 KNOWN = os.path.join(VERIF, "known_findings.json")
-MAX_REPLAYS = 400
+MAX_REPLAYS = 60
 
 
 def _h(obj):
@@ -275,6 +275,9 @@ def finish(mod, run, tier, seed, t0, env):
             sig_key(v["sig"]), v["n"], str(v["res"].get("detail", ""))[:400].replace("\n", " | ")))
         reported += 1
         rc = 1
+    if len(unmatched) > reported + flaky:
+        lines.append("  ... and %d more distinct violation signatures (not written as replay files)" % (
+            len(unmatched) - reported - flaky))
     if flaky and rc == 0:
         rc = 3
     wall = time.time() - t0
